@@ -633,13 +633,28 @@ static std::string handle_tr(const std::vector<std::string> &toks)
 #include <thread>
 #include <unistd.h>
 #include "opentelemetry/sdk/trace/random_id_generator.h"
+#include "opentelemetry/sdk/trace/random_id_generator_factory.h"
+#include "opentelemetry/sdk/trace/samplers/always_on.h"
 static std::string handle_rid(const std::vector<std::string> &t)
 {
   if (t.size() != 4) return "bad-op";
   char *e1 = nullptr, *e2 = nullptr;
   unsigned long nt = strtoul(t[1].c_str(), &e1, 10), k = strtoul(t[2].c_str(), &e2, 10);
   if (*e1 || *e2 || nt == 0 || nt > 8 || k == 0 || k > 64 || (t[3] != "0" && t[3] != "1")) return "bad-op";
-  opentelemetry::sdk::trace::RandomIdGenerator gen;
+  // which way the real generator is built is a function of the case text (FNV-1a), so a case replays the same way: half of
+  // the cases through RandomIdGeneratorFactory::Create(), half through the constructor
+  uint64_t hsh = 1469598103934665603ull;
+  for (size_t i = 1; i < 4; i++)
+  {
+    for (char c : t[i]) hsh = (hsh ^ static_cast<uint8_t>(c)) * 1099511628211ull;
+    hsh = (hsh ^ ' ') * 1099511628211ull;
+  }
+  const bool via_factory = (hsh >> 7) & 1;
+  std::unique_ptr<trace_sdk::IdGenerator> gen_owner =
+      via_factory ? trace_sdk::RandomIdGeneratorFactory::Create()
+                  : std::unique_ptr<trace_sdk::IdGenerator>(new trace_sdk::RandomIdGenerator());
+  if (!gen_owner) return "dups=0 zero=0 forkclash=0!no-generator";
+  trace_sdk::IdGenerator &gen = *gen_owner;
   auto span_hex = [&](void) {
     auto id = gen.GenerateSpanId();
     char b[16];
@@ -663,6 +678,45 @@ static std::string handle_rid(const std::vector<std::string> &t)
       }
     });
   for (auto &x : th) x.join();
+  // ... and a provider that is given no generator (the default one of the constructor, the factory forms that call
+  // RandomIdGeneratorFactory::Create themselves) or the one built above: k root spans, whose span and trace ids join the sample
+  {
+    auto sink = std::make_shared<std::vector<Exported>>();
+    std::unique_ptr<trace_sdk::SpanProcessor> proc(
+        new trace_sdk::SimpleSpanProcessor(std::unique_ptr<trace_sdk::SpanExporter>(new RecordingExporter(sink))));
+    auto res = opentelemetry::sdk::resource::Resource::Create({});
+    std::unique_ptr<trace_sdk::TracerProvider> prov;
+    switch ((hsh >> 11) % 4)
+    {
+      case 0:
+        prov.reset(new trace_sdk::TracerProvider(std::move(proc)));
+        break;
+      case 1:
+        prov = trace_sdk::TracerProviderFactory::Create(std::move(proc));
+        break;
+      case 2:
+        prov = trace_sdk::TracerProviderFactory::Create(std::move(proc), res,
+                                                        std::unique_ptr<trace_sdk::Sampler>(new trace_sdk::AlwaysOnSampler));
+        break;
+      default:
+        prov = trace_sdk::TracerProviderFactory::Create(
+            std::move(proc), res, std::unique_ptr<trace_sdk::Sampler>(new trace_sdk::AlwaysOnSampler),
+            via_factory ? trace_sdk::RandomIdGeneratorFactory::Create()
+                        : std::unique_ptr<trace_sdk::IdGenerator>(new trace_sdk::RandomIdGenerator()));
+        break;
+    }
+    auto tr = prov->GetTracer("rid", "1");
+    for (unsigned long j = 0; j < k; j++)
+    {
+      auto sp = tr->StartSpan("r");
+      auto sc = sp->GetContext();
+      per[0].push_back(id_hex(sc.span_id()));
+      per[0].push_back(id_hex(sc.trace_id()));
+      if (!sp->IsRecording() || !sc.IsValid() || (sc.trace_flags().flags() & ~1) != 0) per[0].push_back("0");   // counted as a zero id
+      sp->End();
+    }
+    if (sink->size() != k) per[0].push_back("0");
+  }
   std::set<std::string> seen;
   int dups = 0, zero = 0;
   for (auto &v : per)
